@@ -71,3 +71,62 @@ def circ_text(n):
         p = float(n.p)
         return f"L{sc}({fstr(frac(1.0 - p))},{fstr(frac(p))},1/1)"
     raise ValueError(type(n))
+
+
+def ref_clt_logvalue(pred, logparams, row):
+    """log P(evidence) of a binary Chow-Liu tree in float64, by a plain bottom-up recursion in the LOG domain written from the
+    definition (row: per node position 0 / 1 / None = missing; logparams[i][l][k] = log P(X_i = k | parent = l), root row 0).
+    Independent of the library's message passing and of any batch: the reference for wide trees and peaked tables."""
+    import math
+    n = len(pred)
+    children = [[] for _ in range(n)]
+    root = None
+    for i, p in enumerate(pred):
+        if p == -1:
+            root = i
+        else:
+            children[p].append(i)
+
+    def lse(a, b):
+        if a == -math.inf:
+            return b
+        if b == -math.inf:
+            return a
+        m = max(a, b)
+        return m + math.log(math.exp(a - m) + math.exp(b - m))
+    order, stack = [], [root]
+    while stack:
+        i = stack.pop()
+        order.append(i)
+        stack.extend(children[i])
+    below = [[0.0, 0.0] for _ in range(n)]          # below[i][k] = log P(evidence strictly below i | X_i = k)
+    msg = [[0.0, 0.0] for _ in range(n)]            # msg[i][l]   = log P(evidence at and below i | parent = l)
+    for i in reversed(order):
+        for k in (0, 1):
+            below[i][k] = sum(msg[c][k] for c in children[i])
+        for l in (0, 1):
+            terms = []
+            for k in (0, 1):
+                if row[i] is None or int(row[i]) == k:
+                    terms.append(float(logparams[i][l][k]) + below[i][k])
+            msg[i][l] = terms[0] if len(terms) == 1 else lse(terms[0], terms[1])
+    return msg[root][0]
+
+
+def make_wide_clt(rs, n, peaked=False):
+    """a tree over n variables (random recursive tree with random labelling), moderately or strongly peaked tables"""
+    perm = [int(v) for v in rs.permutation(n)]
+    pred = [-1] * n
+    for j in range(1, n):
+        pred[perm[j]] = perm[int(rs.randint(max(0, j - 3), j))]      # deep: parents among the last few placed nodes
+    if peaked:
+        probs = np.where(rs.rand(n, 2) < 0.5, rs.uniform(1e-21, 1e-18, (n, 2)), rs.uniform(0.2, 0.8, (n, 2)))
+    else:
+        probs = rs.uniform(0.1, 0.9, (n, 2))
+    params = np.zeros((n, 2, 2))
+    params[:, :, 1] = probs
+    params[:, :, 0] = 1 - probs
+    root = pred.index(-1)
+    params[root, 1] = params[root, 0]
+    scope = list(range(n))
+    return BinaryCLT(scope, root=root, tree=pred, params=np.log(params).tolist()), pred
